@@ -24,9 +24,11 @@
 package main
 
 import (
+	"flag"
 	"fmt"
 	"os"
 	"sort"
+	"strings"
 	"sync"
 	"sync/atomic"
 	"time"
@@ -398,7 +400,19 @@ func sampleRun() []any {
 }
 
 func main() {
+	only := flag.String("phases", "", "developer aid: run only the phases whose name starts with one of these comma-separated prefixes (the run is then marked non-exhaustive)")
 	cfg := vlib.ParseFlags("C09", "exploration")
+	want := func(name string) bool {
+		if *only == "" {
+			return true
+		}
+		for _, p := range strings.Split(*only, ",") {
+			if strings.HasPrefix(name, p) {
+				return true
+			}
+		}
+		return false
+	}
 	buildUniverse()
 	buildPairs()
 	r := vlib.NewReport(cfg)
@@ -470,11 +484,16 @@ func main() {
 			phase{"unclean (other method/literal labellings of 2-route tables)", unitsUnclean(qSmall)},
 			phase{"badreg (other method/literal labellings of 2-route tables)", unitsBadReg(qSmall)},
 			phase{"ext (other method/literal labellings of 2-route tables)", unitsExt(qSmall, false)},
-			phase{"ext-k3 (3-route tables, canonical method/literal labelling)", unitsExt(share{kFull: 2}, true)},
 		)
 	}
 	complete := true
+	if *only != "" {
+		r.NotExhaustive("phase filter -phases=" + *only)
+	}
 	for _, ph := range phases {
+		if !want(ph.name) {
+			continue
+		}
 		if time.Now().After(deadline) || !p.run(ph.units, true) {
 			r.NotExhaustive("soft time box reached during phase \"" + ph.name + "\"; the phases before it are complete")
 			complete = false
@@ -482,12 +501,15 @@ func main() {
 		}
 	}
 	if cfg.Thorough() {
-		if complete {
+		if complete && want("tables4") {
 			us := unitsTables4()
 			done, ok := p.runCount(us, true)
 			r.SetExtra("tables4_units", map[string]int{"completed": done, "total": len(us)})
 			if !ok {
-				r.NotExhaustive(fmt.Sprintf("4-route tables (every insertion order, canonical method/literal labelling): %d of %d work units (one per canonical 3-route prefix, simplest first) completed before the soft time box", done, len(us)))
+				r.NotExhaustive(fmt.Sprintf("4-route tables (every insertion order, canonical method/literal labelling): %d of %d work units (one per canonical 3-route prefix, simplest first) completed before the soft time box; ext-k3 not run", done, len(us)))
+			} else if !want("ext-k3") {
+			} else if time.Now().After(deadline) || !p.run(unitsExt(share{kFull: 2}, true), true) {
+				r.NotExhaustive("soft time box reached during phase \"ext-k3 (EXT request spellings on 3-route tables, canonical labelling)\"; all other phases are complete")
 			}
 		}
 		r.Assume("symmetry reduction (thorough): 4-route tables, and 3-route tables under the EXT request spellings, are enumerated modulo renaming of the route methods GET/POST/PUT and of the literals a/b (one canonical representative per class, every insertion order); all tables with <= 3 routes are enumerated in every labelling under the P1 requests")
